@@ -117,6 +117,45 @@ def same_task_members_case(args):
         sc.close()
 
 
+def two_joined_ports_case(args):
+    """a process with two joined in-ports, each fed by a sub-stream of its own: each placeholder expands to the members of its
+    own sub-stream, in order, and all of them are recorded as upstream"""
+    seed, i = args
+    rng = random.Random(seed * 217645231 + i)
+    sp = t3.Spec(maxtasks=rng.randint(1, 4), bufsize=rng.choice([1, 2, 3, 128]))
+    nl, nr = rng.randint(1, 4), rng.randint(1, 4)
+    left = ["l%d.txt" % j for j in range(nl)]
+    right = ["r%d.txt" % j for j in range(nr)]
+    for p in left + right:
+        sp.files[p] = p + "\n"
+    s1 = sp.src("srcl", left)
+    s2 = sp.src("srcr", right)
+    j1 = sp.s2s("s2sl", s1, "out")
+    j2 = sp.s2s("s2sr", s2, "out")
+    sep = rng.choice([",", ":", " "])
+    sp.proc(t3.RawProc("joiner", "echo LEFT {i:l|join:%s} RIGHT {i:r|join:%s} > {o:o}" % (sep, sep), ins=[("l", [(j1, "substream")]), ("r", [(j2, "substream")])],
+                       outs=[("o", "both.txt")], join={"l": sep, "r": sep}))
+    sc = t3.Scratch()
+    try:
+        sc.plant(sp.files)
+        impl = t3.run_impl(sc, sp, timeout=60, yield_seed=(rng.randint(1, 10**6), 500) if rng.random() < 0.4 else None)
+        problems = []
+        v = impl["fs"].get("both.txt.audit.json")
+        if impl["rc"] != 0 or not impl["returned"] or not v:
+            problems.append(("unexpected-failure", "exit %s: %s" % (impl["rc"], impl["stderr"][-200:])))
+        else:
+            rec = json.loads(v[1])
+            want = "echo LEFT %s RIGHT %s > both.txt" % (sep.join("../" + p for p in left), sep.join("../" + p for p in right))
+            if rec.get("Command") != want:
+                problems.append(("join-expansion", "two joined in-ports: the command was %r, the sub-streams demand %r" % (rec.get("Command"), want)))
+            missing = [m for m in left + right if m not in (rec.get("Upstream") or {})]
+            if missing:
+                problems.append(("upstream-missing", "sub-stream members not recorded as upstream of the joined task: %s" % missing[:4]))
+        return {"spec": sp.text(), "bufsize": sp.bufsize, "problems": problems, "ntasks": 1, "rc": impl["rc"], "stderr": impl["stderr"][-200:], "yield": None, "wall": impl["wall"], "L": nl + nr, "sep": sep}
+    finally:
+        sc.close()
+
+
 def t2_lines(rng, n):
     """the join branch of formatCommand with modifiers, through NewTask -> Task.Command"""
     paths = ["a.txt", "d/b.txt", "/abs/c.txt", "x", "../up/y.txt", "d.e/f.g.txt"]
@@ -140,6 +179,7 @@ def run(rep, tier, seed):
     n = 60 if tier == "quick" else 1000
     results = t3.run_many(case, [(seed, i) for i in range(n)])
     results += t3.run_many(same_task_members_case, [(seed, i) for i in range(n // 4)])
+    results += t3.run_many(two_joined_ports_case, [(seed, i) for i in range(n // 4)])
     found = t3.report_t3(rep, MODULE, proved, results, "T3 sub-streams / T2 join branch")
     lines = t2_lines(rng, 500 if tier == "quick" else 10000)
     diffs, impl, model = vlib.t2_compare("format", lines)
@@ -149,7 +189,7 @@ def run(rep, tier, seed):
                       {"kind": "join-expansion", "input_line": lines[i] if i >= 0 else None, "impl": a, "model": b, "pattern": unhx(lines[i].split()[0]) if i >= 0 else None})
     rep.cov["evaluations"] = len(results) + len(lines)
     rep.cov["distinct_nontrivial"] = len({r["spec"] for r in results if r["L"] >= 1}) + len(set(lines))
-    rep.cov["rule"] = "T3: a source of L files (L in 0,1,2,buf,buf+1,buf+3; SCIPIPE_BUFSIZE 1-3), optionally a fast / slow / irregular producer process, StreamToSubStream, and a process with {i:a|join:SEP} for SEP in space, comma, colon: exactly one command of the joiner, its output (which concatenates the members through the expanded placeholder, so each member resolves from the temp dir and the order is arrival order) and command text equal to the model's, every member a key of Upstream in the audit record; sub-streams whose members include both outputs of one upstream task (a two-out-port process connected twice to the adapter), optionally with a member from elsewhere; T2: the join branch with modifiers and five separators through NewTask -> Task.Command vs the extracted model; non-trivial = at least one member"
+    rep.cov["rule"] = "T3: a source of L files (L in 0,1,2,buf,buf+1,buf+3; SCIPIPE_BUFSIZE 1-3), optionally a fast / slow / irregular producer process, StreamToSubStream, and a process with {i:a|join:SEP} for SEP in space, comma, colon: exactly one command of the joiner, its output (which concatenates the members through the expanded placeholder, so each member resolves from the temp dir and the order is arrival order) and command text equal to the model's, every member a key of Upstream in the audit record; sub-streams whose members include both outputs of one upstream task (a two-out-port process connected twice to the adapter), optionally with a member from elsewhere; a process with two joined in-ports fed by two sub-streams; T2: the join branch with modifiers and five separators through NewTask -> Task.Command vs the extracted model; non-trivial = at least one member"
     rep.cov["samples"] = [results[0]["spec"], unhx(lines[0].split()[0])]
     rep.notes["input_distribution"] = {"t3_runs": len(results), "length_hist": {str(l): sum(1 for r in results if r["L"] == l) for l in sorted({r["L"] for r in results})},
                                        "separators": {s: sum(1 for r in results if r["sep"] == s) for s in (" ", ",", ":")}, "t2_lines": len(lines)}
